@@ -330,47 +330,7 @@ theorem ca_perm_any (tbl : ClassTable) : ∀ t, ca tbl false t .any = true
   | .tvar _ => by simp [ca]
 end
 
-/-! ## the evaluator's context and the document's context -/
-
-
-theorem filterMap_congr' {α β : Type} {f g : α → Option β} :
-    ∀ {l : List α}, (∀ a ∈ l, f a = g a) → l.filterMap f = l.filterMap g
-  | [], _ => rfl
-  | a :: l, h => by
-    simp only [List.filterMap_cons, h a (by simp), filterMap_congr' (l := l) fun b hb => h b (by simp [hb])]
-
-/-- outside class `ellipsisDefault` the evaluator's context is the document's context -/
-theorem context_eq_specContext' (c : EvalCase) (h : D20_ellipsisDefault c = false) :
-    context c = specContext c := by
-  unfold D20_ellipsisDefault at h
-  unfold context specContext contextWith at *
-  cases hp : pyaCall (c.params.map EParam.toParam) (c.args.map EArg.toArg) with
-  | none => rfl
-  | some poss =>
-    rw [hp] at h
-    simp only [Option.map_some, List.any_eq_false] at h ⊢
-    congr 2
-    apply filterMap_congr'
-    intro np hnp
-    have hnp' := h np hnp
-    cases hf : c.params.find? (fun p => p.name == np.1) with
-    | none => rfl
-    | some p =>
-      simp only
-      have hpm := List.find?_some hf
-      have hmem := List.mem_of_find?_eq_some hf
-      congr 1
-      cases hpos : np.2 <;> try rfl
-      -- position DEFAULT: the parameter's default is not `...`
-      rw [hpos] at hnp'
-      simp only [beq_self_eq_true, Bool.true_and, List.any_eq_true, not_exists, not_and] at hnp'
-      have := hnp' p hmem
-      cases hd : p.dflt with
-      | none => cases hk : p.kind <;> simp [bindValue, hd, hk]
-      | lit o => cases hk : p.kind <;> simp [bindValue, hd, hk]
-      | ann t => rw [hd] at this; simp at this; exact absurd (by simpa using hpm) this
-
-/-! ## Witness computations on the live class table
+/-! ## Witness and regression computations on the live class table
 
 `ca` is defined by well-founded recursion, which the kernel does not unfold: closed facts are obtained by
 unfolding its equation lemmas (`ca_fact`) and the evaluations are driven by `simp` with those facts. -/
@@ -378,52 +338,41 @@ unfolding its equation lemmas (`ca_fact`) and the evaluations are driven by `sim
 macro "ca_fact" : tactic =>
   `(tactic| (simp only [ca, caAllR, caAnyL, typedCA, typOf, clsOf] <;> decide +kernel))
 
-/-! closed facts about the live class table used by the witnesses -/
-
 theorem lt_k1_k1 (x : Bool) : ca liveTable x (.known (.int 1)) (.known (.int 1)) = true := by cases x <;> ca_fact
-
 theorem lt_k1_str (x : Bool) : ca liveTable x (.known (.int 1)) (.typed C.str) = false := by cases x <;> ca_fact
-
 theorem lt_int_int (x : Bool) : ca liveTable x (.typed C.int) (.typed C.int) = true := by cases x <;> ca_fact
-
 theorem lt_int_str (x : Bool) : ca liveTable x (.typed C.int) (.typed C.str) = false := by cases x <;> ca_fact
-
 theorem lt_str_int (x : Bool) : ca liveTable x (.typed C.str) (.typed C.int) = false := by cases x <;> ca_fact
-
 theorem lt_str_str (x : Bool) : ca liveTable x (.typed C.str) (.typed C.str) = true := by cases x <;> ca_fact
-
 theorem lt_int_k1 (x : Bool) : ca liveTable x (.typed C.int) (.known (.int 1)) = true := by cases x <;> ca_fact
-
 theorem lt_k1_int (x : Bool) : ca liveTable x (.known (.int 1)) (.typed C.int) = false := by cases x <;> ca_fact
-
 theorem lt_int_obj (x : Bool) : ca liveTable x (.typed C.int) (.typed C.object) = false := by cases x <;> ca_fact
-
 theorem lt_obj_int (x : Bool) : ca liveTable x (.typed C.object) (.typed C.int) = true := by cases x <;> ca_fact
-
+theorem lt_k1_obj (x : Bool) : ca liveTable x (.known (.int 1)) (.typed C.object) = false := by cases x <;> ca_fact
 theorem lt_int_k0 (x : Bool) : ca liveTable x (.typed C.int) (.known (.int 0)) = true := by cases x <;> ca_fact
-
 theorem lt_str_k0 (x : Bool) : ca liveTable x (.typed C.str) (.known (.int 0)) = false := by cases x <;> ca_fact
-
 theorem lt_k0_k0 (x : Bool) : ca liveTable x (.known (.int 0)) (.known (.int 0)) = true := by cases x <;> ca_fact
-
 theorem lt_k0_str (x : Bool) : ca liveTable x (.known (.int 0)) (.typed C.str) = false := by cases x <;> ca_fact
-
-theorem lt_int_ell : ca liveTable true (.typed C.int) ellipsisTy = false := by unfold ellipsisTy; ca_fact
-
-def wU : Ty := .union [.known (.int 1), .typed C.str]
 
 theorem tag_k1_k1 : narrowTag liveTable (.known (.int 1)) (.known (.int 1)) = .keep := by
   simp [narrowTag, overlapping, deliteral, unannotate, overlapBase, clsOf, lt_int_int, lt_k1_k1, univAssignable]
+theorem tag_int_k1 : narrowTag liveTable (.typed C.int) (.known (.int 1)) = .keep := by
+  simp [narrowTag, overlapping, deliteral, unannotate, overlapBase, clsOf, lt_int_int, lt_int_k1, univAssignable]
+theorem tag_int_any : narrowTag liveTable (.typed C.int) .any = .pattern := by
+  simp [narrowTag, overlapping, deliteral, unannotate, overlapBase, ca_perm_any, univAssignable]
+theorem tag_str_str : narrowTag liveTable (.typed C.str) (.typed C.str) = .keep := by
+  simp [narrowTag, overlapping, deliteral, unannotate, overlapBase, lt_str_str, univAssignable]
+theorem tag_int_int : narrowTag liveTable (.typed C.int) (.typed C.int) = .keep := by
+  simp [narrowTag, overlapping, deliteral, unannotate, overlapBase, lt_int_int, univAssignable]
 
-theorem tag_k1_str : narrowTag liveTable (.known (.int 1)) (.typed C.str) = .drop := by
-  simp [narrowTag, overlapping, deliteral, unannotate, overlapBase, clsOf, lt_int_str, lt_str_int]
+/-! ### fallThrough (still a finding): `if x == 1: return int` / `if x == 1: return str else: return bytes`
+on `x: Literal[1] | str` -/
+def wU : Ty := .union [.known (.int 1), .typed C.str]
 
 theorem otv_k1_wU : ofTypeVal liveTable "x" (.known (.int 1)) true wU =
     ⟨some [("x", .known (.int 1))], some [("x", .typed C.str)]⟩ := by
-  simp [wU, ofTypeVal, ca_union_right, caAllR, lt_k1_k1, lt_k1_str, decompose, unannotate, narrow, flatten1, narrowPos,
-    tag_k1_k1, tag_k1_str, unite, dedup, dictMem]
-
-/-- `def f(x): if x == 1: return int` / `if x == 1: return str` / `else: return bytes` -/
+  simp [wU, ofTypeVal, ca_union_right, caAllR, lt_k1_k1, lt_k1_str, decompose, unannotate, subtractUnions, flatten1,
+    unite, dedup, dictMem, Ty.hashEq, Ty.beq]
 
 def wFallBody : List Stmt :=
   [.ite (.cmp "x" (.int 1) false) [.ret (.typed C.int)] [],
@@ -442,15 +391,10 @@ theorem fallThrough_ref :
   simp [wFallBody, wU, refUnion, splitVars, flatten1, refRun, refBlock, refStmt, refCond, Env.ofList, lt_k1_k1, lt_k1_str,
     unite, dedup, dictMem, Ty.hashEq, C.int, C.bytes]
 
-theorem lt_k1_obj (x : Bool) : ca liveTable x (.known (.int 1)) (.typed C.object) = false := by cases x <;> ca_fact
-
-/-! ### retyped: `if is_of_type(x, int, exclude_any=False): (if is_of_type(x, int): return int else: return str)` on `Any` -/
-
+/-! ### retyped (still a finding): `if is_of_type(x, int, exclude_any=False): (if is_of_type(x, int): return int
+else: return str)` on `Any` -/
 def wRetBody : List Stmt :=
   [.ite (.ofType "x" (.typed C.int) false) [.ite (.ofType "x" (.typed C.int) true) [.ret (.typed C.int)] [.ret (.typed C.str)]] []]
-
-theorem tag_int_any : narrowTag liveTable (.typed C.int) .any = .pattern := by
-  simp [narrowTag, overlapping, deliteral, unannotate, overlapBase, ca_perm_any, univAssignable]
 
 theorem retyped_model :
     evaluate liveTable [] (Env.ofList [("x", .any)]) (.typed C.float) wRetBody = (.typed C.int, []) := by
@@ -465,41 +409,30 @@ theorem retyped_ref :
     refRun liveTable [] (Env.ofList [("x", .any)]) (.typed C.float) wRetBody = (.typed C.str, []) := by
   simp [wRetBody, refRun, refBlock, refStmt, refCond, Env.ofList, ca_perm_any, ca_excl_any, acceptsAnyX]
 
-/-! ### overlapNarrow: `if is_of_type(x, int): (if x == 1: return int else: return str) else: return bytes` on `object | Literal[1]` -/
-
+/-! ### overlapNarrow (repaired by faaff0c): `if is_of_type(x, int): (if x == 1: return int else: return str)
+else: return bytes` on `object | Literal[1]` -/
 def wOvU : Ty := .union [.typed C.object, .known (.int 1)]
-
 def wOvBody : List Stmt :=
   [.ite (.ofType "x" (.typed C.int) true)
      [.ite (.cmp "x" (.int 1) false) [.ret (.typed C.int)] [.ret (.typed C.str)]] [.ret (.typed C.bytes)]]
 
-theorem tag_int_obj : narrowTag liveTable (.typed C.int) (.typed C.object) = .pattern := by
-  simp [narrowTag, overlapping, deliteral, unannotate, overlapBase, lt_int_obj, lt_obj_int]
-
-theorem tag_int_k1 : narrowTag liveTable (.typed C.int) (.known (.int 1)) = .keep := by
-  simp [narrowTag, overlapping, deliteral, unannotate, overlapBase, clsOf, lt_int_int, lt_int_k1, univAssignable]
-
-theorem tag_k1_int : narrowTag liveTable (.known (.int 1)) (.typed C.int) = .pattern := by
-  simp [narrowTag, overlapping, deliteral, unannotate, overlapBase, clsOf, lt_int_int, lt_k1_int]
-
 theorem otv_int_wOvU : ofTypeVal liveTable "x" (.typed C.int) true wOvU =
-    ⟨some [("x", .union [.typed C.int, .known (.int 1)])], some [("x", .typed C.object)]⟩ := by
-  simp [wOvU, ofTypeVal, ca_union_right, caAllR, lt_int_obj, lt_int_k1, decompose, unannotate, narrow, flatten1,
-    narrowPos, tag_int_obj, tag_int_k1, unite, dedup, dictMem, Ty.hashEq]
+    ⟨some [("x", .known (.int 1))], some [("x", .typed C.object)]⟩ := by
+  simp [wOvU, ofTypeVal, ca_union_right, caAllR, lt_int_obj, lt_int_k1, decompose, unannotate, subtractUnions, flatten1,
+    unite, dedup, dictMem, Ty.hashEq, Ty.beq]
 
-theorem otv_k1_narrowed : ofTypeVal liveTable "x" (.known (.int 1)) true (.union [.typed C.int, .known (.int 1)]) =
-    ⟨some [("x", .known (.int 1))], some [("x", .typed C.int)]⟩ := by
-  simp [ofTypeVal, ca_union_right, caAllR, lt_k1_int, lt_k1_k1, decompose, unannotate, narrow, flatten1,
-    narrowPos, tag_k1_int, tag_k1_k1, unite, dedup, dictMem, Ty.hashEq, Ty.beq, Obj.same, Obj.tag, Obj.pyEq, Obj.hashable]
+theorem otv_k1_k1 : ofTypeVal liveTable "x" (.known (.int 1)) true (.known (.int 1)) =
+    ⟨some [("x", .known (.int 1))], none⟩ := by
+  simp [ofTypeVal, lt_k1_k1, narrow, flatten1, narrowPos, tag_k1_k1, unite, dedup, dictMem]
 
 theorem overlapNarrow_model :
     evaluate liveTable [] (Env.ofList [("x", wOvU)]) (.typed C.complex) wOvBody =
-      (.union [.typed C.int, .typed C.str, .typed C.bytes], []) := by
+      (.union [.typed C.int, .typed C.bytes], []) := by
   have hx : Env.ofList [("x", wOvU)] "x" = some wOvU := by simp [Env.ofList]
-  have hx2 : (Env.ofList [("x", wOvU)]).over [("x", .union [.typed C.int, .known (.int 1)])] "x" =
-      some (.union [.typed C.int, .known (.int 1)]) := by simp [Env.over]
-  simp only [wOvBody, evaluate, evalBlock, evalStmt, evalCond, ofTypeRet, hx, otv_int_wOvU, hx2, otv_k1_narrowed]
-  simp [finalize, unite, flatten1, dedup, dictMem, Ty.hashEq, C.int, C.str, C.bytes]
+  have hx2 : (Env.ofList [("x", wOvU)]).over [("x", .known (.int 1))] "x" = some (.known (.int 1)) := by
+    simp [Env.over]
+  simp only [wOvBody, evaluate, evalBlock, evalStmt, evalCond, ofTypeRet, hx, otv_int_wOvU, hx2, otv_k1_k1]
+  simp [finalize, unite, flatten1, dedup, dictMem, Ty.hashEq, C.int, C.bytes]
 
 theorem overlapNarrow_ref :
     refUnion liveTable [] [("x", wOvU)] (.typed C.complex) wOvBody =
@@ -508,40 +441,37 @@ theorem overlapNarrow_ref :
     lt_k1_k1]
   simp [unite, flatten1, dedup, dictMem, Ty.hashEq, C.int, C.bytes]
 
+/-! ### boolOpDrop (repaired by 4713671): `if is_of_type(x, int) or is_of_type(x, str): (if x == 0: return int
+else: return str) else: return bytes` on `Literal[0] | str` -/
 def wDropU : Ty := .union [.known (.int 0), .typed C.str]
-
 def wDropBody : List Stmt :=
   [.ite (.or [.ofType "x" (.typed C.int) true, .ofType "x" (.typed C.str) true])
      [.ite (.cmp "x" (.int 0) false) [.ret (.typed C.int)] [.ret (.typed C.str)]] [.ret (.typed C.bytes)]]
 
-theorem tag_int_k0 : narrowTag liveTable (.typed C.int) (.known (.int 0)) = .keep := by
-  simp [narrowTag, overlapping, deliteral, unannotate, overlapBase, clsOf, lt_int_int, lt_int_k0, univAssignable]
-
-theorem tag_int_str : narrowTag liveTable (.typed C.int) (.typed C.str) = .drop := by
-  simp [narrowTag, overlapping, deliteral, unannotate, overlapBase, lt_int_str, lt_str_int]
-
-theorem tag_str_str : narrowTag liveTable (.typed C.str) (.typed C.str) = .keep := by
-  simp [narrowTag, overlapping, deliteral, unannotate, overlapBase, lt_str_str, univAssignable]
-
 theorem otv_int_wDropU : ofTypeVal liveTable "x" (.typed C.int) true wDropU =
     ⟨some [("x", .known (.int 0))], some [("x", .typed C.str)]⟩ := by
-  simp [wDropU, ofTypeVal, ca_union_right, caAllR, lt_int_k0, lt_int_str, decompose, unannotate, narrow, flatten1,
-    narrowPos, tag_int_k0, tag_int_str, unite, dedup, dictMem]
-
+  simp [wDropU, ofTypeVal, ca_union_right, caAllR, lt_int_k0, lt_int_str, decompose, unannotate, subtractUnions, flatten1,
+    unite, dedup, dictMem, Ty.hashEq, Ty.beq]
 theorem otv_str_str : ofTypeVal liveTable "x" (.typed C.str) true (.typed C.str) =
     ⟨some [("x", .typed C.str)], none⟩ := by
   simp [ofTypeVal, lt_str_str, narrow, flatten1, narrowPos, tag_str_str, unite, dedup, dictMem]
+theorem otv_k0_wDropU : ofTypeVal liveTable "x" (.known (.int 0)) true wDropU =
+    ⟨some [("x", .known (.int 0))], some [("x", .typed C.str)]⟩ := by
+  simp [wDropU, ofTypeVal, ca_union_right, caAllR, lt_k0_k0, lt_k0_str, decompose, unannotate, subtractUnions, flatten1,
+    unite, dedup, dictMem, Ty.hashEq, Ty.beq]
 
-theorem otv_k0_str : ofTypeVal liveTable "x" (.known (.int 0)) true (.typed C.str) = ⟨none, some []⟩ := by
-  simp [ofTypeVal, lt_k0_str, decompose, unannotate]
+theorem wDrop_stop : stopMap [[("x", Ty.known (.int 0))]] (some [("x", .typed C.str)]) = some [("x", wDropU)] := by
+  simp [stopMap, uniteVarmaps, wDropU, unite, flatten1, dedup, dictMem, Ty.hashEq]
 
 theorem boolOpDrop_model :
-    evaluate liveTable [] (Env.ofList [("x", wDropU)]) (.typed C.complex) wDropBody = (.typed C.str, []) := by
+    evaluate liveTable [] (Env.ofList [("x", wDropU)]) (.typed C.complex) wDropBody =
+      (.union [.typed C.int, .typed C.str], []) := by
   have hx : Env.ofList [("x", wDropU)] "x" = some wDropU := by simp [Env.ofList]
   have hx2 : (Env.ofList [("x", wDropU)]).over [("x", .typed C.str)] "x" = some (.typed C.str) := by simp [Env.over]
+  have hx3 : (Env.ofList [("x", wDropU)]).over [("x", wDropU)] "x" = some wDropU := by simp [Env.over]
   simp only [wDropBody, evaluate, evalBlock, evalStmt, evalCond, evalOr, ofTypeRet, hx, otv_int_wDropU, hx2, otv_str_str,
-    List.nil_append, List.append_nil, otv_k0_str]
-  simp [finalize]
+    List.nil_append, List.append_nil, wDrop_stop, hx3, otv_k0_wDropU]
+  simp [finalize, unite, flatten1, dedup, dictMem, Ty.hashEq, C.int, C.str]
 
 theorem boolOpDrop_ref :
     refUnion liveTable [] [("x", wDropU)] (.typed C.complex) wDropBody =
@@ -550,27 +480,24 @@ theorem boolOpDrop_ref :
     lt_int_k0, lt_int_str, lt_str_str, lt_k0_k0, lt_k0_str]
   simp [unite, flatten1, dedup, dictMem, Ty.hashEq, C.int, C.str]
 
-/-- the document's `with_defaults` example: `def f(x: int = ...) -> bytes: if is_of_type(x, int): return str`, called as `f()` -/
-
+/-! ### ellipsisDefault (repaired by d1ebe72): the document's `with_defaults` example,
+`def f(x: int = ...) -> bytes: if is_of_type(x, int): return str`, called as `f()` -/
 def wEllCase : EvalCase :=
   ⟨[⟨"x", .posOrKw, .ann (.typed C.int)⟩], [], .typed C.bytes,
    [.ite (.ofType "x" (.typed C.int) true) [.ret (.typed C.str)] []]⟩
 
-theorem ell_ctx : context wEllCase = some ([("x", .dflt)], [("x", ellipsisTy)]) := by rfl
+theorem ell_ctx : context wEllCase = some ([("x", .dflt)], [("x", .typed C.int)]) := by rfl
 
-theorem ell_sctx : specContext wEllCase = some ([("x", .dflt)], [("x", .typed C.int)]) := by rfl
+theorem otv_int_int : ofTypeVal liveTable "x" (.typed C.int) true (.typed C.int) =
+    ⟨some [("x", .typed C.int)], none⟩ := by
+  simp [ofTypeVal, lt_int_int, narrow, flatten1, narrowPos, tag_int_int, unite, dedup, dictMem]
 
-theorem otv_int_ell : ofTypeVal liveTable "x" (.typed C.int) true ellipsisTy = ⟨none, some []⟩ := by
-  have hd : decompose liveTable true (.typed C.int) ellipsisTy = none := by
-    simp [decompose, unannotate, ellipsisTy]
-  simp [ofTypeVal, lt_int_ell, hd]
-
-theorem ellipsisDefault_model : evalCall liveTable wEllCase = some (.typed C.bytes, []) := by
+theorem ellipsisDefault_model : evalCall liveTable wEllCase = some (.typed C.str, []) := by
   simp only [evalCall, ell_ctx, Option.map_some]
-  simp [wEllCase, evaluate, evalBlock, evalStmt, evalCond, ofTypeRet, Env.ofList, otv_int_ell, finalize]
-
+  simp [wEllCase, evaluate, evalBlock, evalStmt, evalCond, ofTypeRet, Env.ofList, otv_int_int, finalize]
 theorem ellipsisDefault_ref : refCall liveTable wEllCase = some (.typed C.str, []) := by
-  simp only [refCall, ell_sctx, Option.map_some]
+  have : specContext wEllCase = some ([("x", .dflt)], [("x", .typed C.int)]) := by rfl
+  simp only [refCall, this, Option.map_some]
   simp [wEllCase, refUnion, splitVars, flatten1, refRun, refBlock, refStmt, refCond, Env.ofList, lt_int_int]
   simp [unite, flatten1, dedup, dictMem]
 
